@@ -98,4 +98,23 @@ PROPS["C20"] = {
     "clauses_without_theorem": ["a clone shares no memory with the original (observed by the suite, which diverges clones and compares slot addresses)"],
 }
 
+HS_TRUSTED = ["net/http request/response parsing and header canonicalisation (http.ReadRequest/ReadResponse, Header.Get/Values/Set/Del): the model starts from the parsed view; sampled by the suites with raw bytes",
+              "crypto/sha1 and encoding/base64 = the Lean SHA-1/base64 (checked against RFC vectors by `example`s and against the real ComputeAcceptKey in the suites)",
+              "strings.EqualFold for the token 'upgrade' is ASCII case-insensitive equality (proved: foldEq_iff_lower); for 'websocket' Unicode folding admits U+212A/U+017F (tagged latitude)"]
+PROPS["C10"] = {
+    "theorems": ["Hs.upgrade_iff", "Hs.response_fields", "Hs.accept_outcome", "Hs.reject_no_101", "Hs.outcome_dichotomy"],
+    "suites": ["hs-server"],
+    "trusted": HS_TRUSTED + ["session object isolation in memory (two upgrades never share a session) is observed by the suite, not proved"],
+    "clauses_without_theorem": ["session values set during authorisation are shared with no other connection (observed: iso=1 flag per case)",
+                                "non-canonical keys written directly into ResponseHeader are emitted with an empty value (limitation theorem noncanonical_config_key_emitted)"],
+}
+PROPS["C11"] = {
+    "theorems": ["Hs.client_accepts_iff", "Hs.client_reject_closes", "Hs.selected_subprotocol", "Hs.request_headers"],
+    "suites": ["hs-client", "faults:hs-client"],
+    "trusted": HS_TRUSTED,
+    "clauses_without_theorem": ["the key is fresh, random and 16 bytes (observed: 1000 handshakes, all distinct)", "return within the handshake time-out even if the server never answers (observed with short time-outs)",
+                                "frames sent directly behind the 101 response are not lost (observed: trailing frames glued to the response, cut at every offset)",
+                                "no goroutine is left behind by a failed handshake (observed: goroutine census in the faults suite)"],
+}
+
 EXTRA = {}
